@@ -116,7 +116,8 @@ def joinWith (sep : UInt8) : List Bytes → Bytes
   | [x] => x
   | x :: xs => x ++ sep :: joinWith sep xs
 
-def hexB (b : Bytes) : Bytes := strBytes (toHex b)
+/-- hex of an element; the empty string is written `_` so that `[""]` and `[]` differ -/
+def hexB (b : Bytes) : Bytes := if b.isEmpty then [95] else strBytes (toHex b)
 
 def dumpValue : Value → Bytes
   | .str b => 83 :: hexB b
@@ -131,7 +132,7 @@ def splitOn (sep : UInt8) (b : Bytes) : List Bytes :=
     | c :: rest, cur => if c == sep then cur.reverse :: go rest [] else go rest (c :: cur)
   go b []
 
-def unhexB (b : Bytes) : Option Bytes := fromHex (bytesStr b)
+def unhexB (b : Bytes) : Option Bytes := if b == [95] then some [] else fromHex (bytesStr b)
 
 def parseItems (b : Bytes) : List Bytes := if b.isEmpty then [] else splitOn 44 b
 
